@@ -417,6 +417,34 @@ class ModuleState:
                         pass
         self.scanned = True
 
+    def clear_function_caches(self) -> int:
+        """functools.lru_cache / cache wrappers defined in synkit modules are process state as well: a run starts
+        with all of them empty (as a freshly started process would), otherwise results - and replays - would
+        depend on what earlier runs in the same child happened to compute."""
+        n_mod = sum(1 for name in sys.modules if name == "synkit" or name.startswith("synkit."))
+        if getattr(self, "_cached_fns_for", None) != n_mod:
+            fns = []
+            for name, mod in list(sys.modules.items()):
+                if mod is None or not (name == "synkit" or name.startswith("synkit.")):
+                    continue
+                for k, v in list(getattr(mod, "__dict__", {}).items()):
+                    objs = [v]
+                    if isinstance(v, type) and getattr(v, "__module__", None) == name:
+                        objs = [getattr(v, a, None) for a in list(vars(v))]
+                    for o in objs:
+                        f = getattr(o, "__func__", o)
+                        cc = getattr(f, "cache_clear", None)
+                        if callable(cc) and hasattr(f, "cache_info"):
+                            fns.append(cc)
+            self._cached_fns = fns
+            self._cached_fns_for = n_mod
+        for cc in self._cached_fns:
+            try:
+                cc()
+            except Exception:
+                pass
+        return len(self._cached_fns)
+
     def fresh(self) -> Dict[Any, Any]:
         import copy
         if not self.scanned:
